@@ -87,6 +87,63 @@ CLOSURES = ['(\\x.\\y.x+y) 3', '(\\x.\\y.\\z.x+y+z) 1 2', '(\\x.\\y.\\z.x+y+z) 1
             '(\\x.\\y.x + y) "s"', '(\\a.\\b.a) (\\c.c) ', '(\\x.\\y.y x) (d6)', '(\\f.\\x.f (f x)) (\\y.y+1)',
             '(\\x.\\y.\\z.x) (\\q.q) 2', '(\\x.\\y.x+y) (@2020-02-29)', '(\\x.\\y.x) (1/3 to 3 dp)', '(\\x.\\y.x) (pi to hex)']
 
+# dists whose STORED outcome order is not ascending (sampling walks the stored order)
+DIST_UNSORTED = ['7 - d6', '-d6', 'd6 * -1', '10 - 2d6', 'd4 - d6', '(7 - d6) to 2 dp', '3 - d4 + d2', '(0 - d6) kg', '100 - d20']
+DIST += DIST_UNSORTED
+
+# values that cross the 1024-element pre-allocation cap / a 1024-byte block, and their neighbours
+def _dbl(name, seed, k):
+    return ['%s = "%s"' % (name, seed)] + ['%s = %s + %s' % (name, name, name)] * k
+BIG_HISTORIES = [
+    (_dbl('v0', 'abcdefghij', 7), ['v0'], ['string-long']),                      # 1280 bytes
+    (_dbl('v0', 'abcdefghij', 8), ['v0'], ['string-long']),                      # 2560
+    (_dbl('v0', 'abcdefgh', 7), ['v0'], ['string-long']),                        # exactly 1024
+    (_dbl('v0', 'abcdefgh', 7) + ['v1 = v0 + "x"'], ['v0', 'v1'], ['string-long', 'string-long']),   # 1024 and 1025
+    (_dbl('v0', 'abcdefgh', 8), ['v0'], ['string-long']),                        # 2048
+    (_dbl('v0', 'h\u00e9llo \u2713 ', 8), ['v0'], ['string-long']),            # multi-byte characters across block edges
+    (['v0 = "%s"' % ('0123456789' * 130), 'v1 = x: x + "%s"' % ('abcdefghijklm' * 100), 'v2 = (\\x.\\y.x) "%s"' % ('xyz' * 500)],
+     ['v0', 'v1', 'v2'], ['string-long', 'lambda', 'closure-with-scope']),       # long literals inside closures and scopes
+    (['v0 = 2^65535', 'v1 = 2^65536', 'v2 = 2^70000 + 12345', 'v3 = 1/(2^66000)'], ['v0', 'v1', 'v2', 'v3'], ['number-big'] * 4),   # 1024 / 1025 / 1094 limbs
+    (['v0 = d1025'], ['v0'], ['dist-big']),
+    (['v0 = 2000 - d1030'], ['v0'], ['dist-big']),
+    (['v0 = d1024'], ['v0'], ['dist-big']),
+    (['w%d = %d' % (i, i) for i in range(1100)] + ['v0 = w1099 + w7'], ['v0', 'w0', 'w1023', 'w1024', 'w1099'], ['many-variables']),
+]
+
+# higher-order closures: a lambda ARGUMENT that mentions a parameter of an enclosing function, so that the
+# captured scope holds an expression whose own defining scope matters
+HIGHER_ORDER = [
+    ['v0 = g: x: g (g x)', 'v1 = a: v0 (y: y + a)', 'v2 = v1 5'],
+    ['v0 = f: g: x: f (g x)', 'v1 = a: v0 (y: y * a) (z: z + a)', 'v2 = v1 3'],
+    ['v0 = f: a: f (y: y + a)', 'v1 = g: x: g (g x)', 'v2 = v0 v1 5'],
+    ['v0 = a: b: (c: a + b + c)', 'v1 = v0 1 2', 'v2 = v0 1'],
+    ['v0 = a: (f: x: f (x + a)) (y: y * a)', 'v1 = v0 4'],
+    ['v0 = a: b: f: f a b', 'v1 = v0 (x: x + 1) (y: y * 2)', 'v2 = v1 (f: g: z: f (g z))'],
+    ['v0 = a: b: (g: x: g (g x)) (y: y + a + b)', 'v1 = v0 1 2', 'v2 = v0 10'],
+    ['v0 = f: a: b: f a b', 'v1 = v0 (p: q: p - q) 10'],
+    ['v0 = a: (b: (c: (y: y + a + b + c)))', 'v1 = v0 1 2 3', 'v2 = (g: x: g (g (g x))) v1'],
+    ['v0 = a: (\\y.y a)', 'v1 = b: v0 (x: x + b)', 'v2 = v1 7', 'v3 = v2 (k: k * 2)'],
+    ['v0 = s: (t: s + t)', 'v1 = v0 "pre"', 'v2 = a: v0 (a + "!")', 'v3 = v2 "hi"'],
+    ['v0 = u: (f: x: f (f x)) (y: y + u)', 'v1 = v0 (3 kg)', 'v2 = v0 (d6)'],
+]
+GLOBALS = ['a = 100', 'b = 200', 'c = 300', 'x = 7', 'y = 9', 'z = 11', 'g = 3', 'f = 4', 'p = 5', 'q = 6', 'k = 8', 's = "S"', 't = "T"', 'u = 1 m']
+HO_ARGS = ['(y: y + a)', '(y: y * a)', '(y: a - y)', '(y: y + a + 1)', '(y: (z: z + a) y)', '(y: y a)']
+HO_COMB = ['(g: x: g (g x))', '(g: x: g x)', '(g: x: g (g (g x)))', '(g: h: x: g (h x)) (w: w + 1)', '(g: x: (g x) + (g (x + 1)))']
+
+def gen_higher_order(r):
+    """random instance of `mk = a: COMB ARG(a); h = mk n` with optional same-named globals afterwards"""
+    comb, arg = r.choice(HO_COMB), r.choice(HO_ARGS)
+    st = ['v0 = a: %s %s' % (comb, arg), 'v1 = v0 %d' % r.randint(1, 9)]
+    if r.random() < 0.5:
+        st.append('v2 = b: v0 (a: b)' if False else 'v2 = b: (%s %s) ' % (comb, arg.replace('a', 'b')))
+        st.append('v3 = v2 %d' % r.randint(1, 9))
+    names = ['v%d' % i for i in range(len(st))]
+    return st, names
+
+def with_globals(r, stmts):
+    """the same history followed by global definitions of the parameter names its lambdas use"""
+    return stmts + r.sample(GLOBALS, r.randint(2, 6))
+
 def builtin_idents(as_names):
     # every literal as_str can write is also the identifier that resolves to that built-in
     return list(as_names)
@@ -141,6 +198,9 @@ def gen_history(r, builtins, nmin=1, nmax=5):
             names.append(n)
         else:
             stmts.append(e)
+    if r.random() < 0.25:
+        # globals named like the parameters of stored lambdas (must stay shadowed after a reload)
+        stmts = with_globals(r, stmts)
     return stmts, names, kinds
 
 def corpus_histories(builtins):
@@ -160,6 +220,13 @@ def corpus_histories(builtins):
     out.append((['v0 = \\x.\\y.x+y', 'v1 = v0 3'], ['v0', 'v1'], ['lambda', 'closure-with-scope']))
     out.append((['v0 = \\x.\\y.\\z.x+y+z', 'v1 = v0 1', 'v2 = v1 2', 'v3 = v2 3'], ['v0', 'v1', 'v2', 'v3'], ['lambda', 'closure-with-scope', 'closure-with-scope', 'number']))
     out.append((['v0 = 5', 'v1 = x: x + v0', 'v0 = 7', 'v2 = v1 1'], ['v0', 'v1', 'v2'], ['number', 'lambda', 'number', 'derived']))
+    for h in HIGHER_ORDER:
+        names = ['v%d' % i for i in range(len(h))]
+        out.append((h, names, ['closure-higher-order'] * len(h)))
+        out.append((h + GLOBALS, names, ['closure-higher-order'] * len(h)))
+    for e in DIST_UNSORTED:
+        out.append((['v0 = d6', 'v1 = d4', 'v2 = v0 - v1', 'v3 = ' + e], ['v0', 'v1', 'v2', 'v3'], ['dist-unsorted'] * 4))
+    out.extend(BIG_HISTORIES)
     return out
 
 RENAME = re.compile(r'\bv(\d+)\b')
@@ -172,8 +239,14 @@ def canon_probe(p):
     multiset of tokens because hash-map iteration order differs per map"""
     return p
 
+UNIT_DEF = re.compile(r'\(= [^()]*\)')
 def debug_canon(text):
-    return sorted(re.split(r'[\s,]+', text.decode('utf-8', 'replace')))
+    """@debug text is compared verbatim (stored order of dist outcomes, object
+    members, unit components, scopes matters) except that the base-unit list
+    inside a unit definition `(= scale unit^e unit^e ...)` is a hash map dump
+    and is compared as a token multiset"""
+    t = text.decode('utf-8', 'replace')
+    return UNIT_DEF.sub(lambda m: '(= ' + ' '.join(sorted(m.group(0)[3:-1].split())) + ')', t)
 
 # ---------------------------------------------------------------------------
 # image helpers
